@@ -38,7 +38,8 @@ def gen_edges(model, workers=8, timeout=1500):
 def edge_class(e):
     """transition class: the command (verb, parameter shape) of the final step plus the verbs on the way"""
     last = e["steps"][-1]
-    return json.dumps([last["c"], last["cmd"]], sort_keys=True)
+    sig = e.get("sig", {})
+    return json.dumps([last["c"], last["cmd"], sorted(sig.get("codes", [])), sorted(sig.get("changes", []))], sort_keys=True)
 
 def select_edges(edges, per_class, seed, extra=0):
     """deterministic tier selection: for every transition class the per_class shortest behaviours,
